@@ -2544,6 +2544,7 @@ def geometric_vsop_pos(epoch, vsop_l, vsop_b, vsop_r, tofk5=True):
         delta_beta = 0.03916 * (cos(lambda_p.rad()) - sin(lambda_p.rad()))
         delta_beta = Angle(0, 0, delta_beta)
         lon += delta_lon
+        lon.to_positive()  # The correction may take the longitude below 0
         lat += delta_beta
     return lon, lat, r
 
@@ -2582,6 +2583,7 @@ def apparent_vsop_pos(epoch, vsop_l, vsop_b, vsop_r, nutation=True):
     delta = -20.4898 / r
     delta = Angle(0, 0, delta)
     lon += delta
+    lon.to_positive()  # The corrections may take the longitude below 0
     return lon, lat, r
 
 
